@@ -284,3 +284,25 @@ def simple_string_chunks(text: bytes):
             q |= QUAL_END
         out.append((q, d))
     return out
+
+
+_STREAM_TURN = [0]
+
+
+def stream(data: bytes):
+    """A binary stream over the bytes, as callers may hand one in: an in-memory BytesIO, a buffered reader with a small
+    or a large buffer (what open(path, 'rb') returns), or a real temporary file.  Rotates deterministically."""
+    import io
+    import tempfile
+    _STREAM_TURN[0] += 1
+    k = _STREAM_TURN[0] % 5
+    if k in (0, 1):
+        return io.BytesIO(data)
+    if k == 2:
+        return io.BufferedReader(io.BytesIO(data), buffer_size=16)
+    if k == 3:
+        return io.BufferedReader(io.BytesIO(data), buffer_size=1 << 16)
+    f = tempfile.TemporaryFile()
+    f.write(data)
+    f.seek(0)
+    return f
